@@ -221,7 +221,7 @@ def _gen_op(rnd, rc, hints, fcs, packages, flavour="sim"):
         ast, _ = gen_valid(rnd, rnd.randint(1, 3), rc, hints, fcs, want=("nfc", "fc"))
         return {"op": "fc_eval", "ast": ast, "expr": render(ast, rnd, "wild"), "text": rnd.choice([None, "x", "foo"])}
     if roll < 0.80:
-        parts = gen_ahb_parts(rnd, rnd.randint(1, 3), rc, hints, fcs, packages, max_parts=4)
+        parts = gen_ahb_parts(rnd, rnd.randint(1, 3), rc, hints, fcs, packages, max_parts=4, allow_ub=bool(packages))
         if rnd.random() < 0.35 and len(parts) < 4:  # more modal mark parts: the gather_if_necessary site
             extra = gen_ahb_parts(rnd, 1, rc, hints, fcs, packages, max_parts=2, indicators=["MUSS", "SOLL", "KANN"])
             if all(a is not None for _, a in parts) and parts[0][0] in ("MUSS", "SOLL", "KANN"):
@@ -259,7 +259,7 @@ def generate(seed, tier="quick"):
     flavour = "cer" if rnd.random() < 0.25 else "sim"
     world = {
         "flavour": flavour,
-        "rc_keys": rc,
+        "rc_keys": sorted(set(rc) | {"492", "493"}, key=int),
         "fc_keys": fcs,
         "hint_keys": hints,
         "sync_rc": [k for k in rc if rnd.random() < 0.2],
@@ -286,6 +286,7 @@ def generate(seed, tier="quick"):
             fc={k: rnd.random() < 0.5 for k in fcs},
             hints=hints,
             packages=packages,
+            time_conditions=True,
         )
         op = _gen_op(rnd, rc, hints, fcs, package_kinds, flavour)
         if op.get("drop"):
@@ -302,7 +303,7 @@ def generate(seed, tier="quick"):
                 ast, _ = gen_valid(rnd, rnd.randint(0, 2), rc, hints, fcs, want=("rc",))
                 follow_packages[pkey] = render(ast, rnd, "wild")
             follow_cer = make_cer(rid, rc={k: rnd.choice(STATES) for k in rc}, fc={k: rnd.random() < 0.5 for k in fcs},
-                                  hints=hints, packages=follow_packages)
+                                  hints=hints, packages=follow_packages, time_conditions=True)
             follow_op = _gen_op(rnd, rc, hints, fcs, package_kinds, flavour)
             if not follow_op.get("drop") and not request["op"].get("drop"):
                 request["follow_ups"] = [{"op": follow_op, "cer": follow_cer, "peer_set": request.get("peer_set", 0)}]
